@@ -118,7 +118,13 @@ func genPart(t *rapid.T, label string, alpha string) string {
 	}
 }
 
+// genEpoch draws an epoch for a Version *struct*; the Epoch member is a uint, so
+// on a 32-bit build the values are folded into its range.
 func genEpoch(t *rapid.T, label string) uint64 {
+	return genEpoch64(t, label) & uint64(^uint(0))
+}
+
+func genEpoch64(t *rapid.T, label string) uint64 {
 	switch rapid.IntRange(0, 9).Draw(t, label+"kind") {
 	case 0, 1, 2, 3, 4:
 		return 0
@@ -505,7 +511,15 @@ func genFromAlphabet(t *rapid.T, label, alpha string, min, max int) string {
 }
 
 // genWellFormedCore draws (epoch?, upstream, revision?) from the Policy grammar.
+// Epochs are folded into the range of the Epoch member (a uint: 32 bits on a
+// 32-bit build, where the checks are run as well).
 func genWellFormedCore(t *rapid.T, label string) WellFormed {
+	return genWellFormedCoreX(t, label, false)
+}
+
+// with anyEpoch the epoch is any decimal up to MaxInt64, whatever the platform:
+// only C03/wellformed wants that, it expects a rejection where it does not fit
+func genWellFormedCoreX(t *rapid.T, label string, anyEpoch bool) WellFormed {
 	w := WellFormed{}
 	w.HasEpoch = rapid.IntRange(0, 2).Draw(t, label+"hasEpoch") == 0
 	if w.HasEpoch {
@@ -520,6 +534,9 @@ func genWellFormedCore(t *rapid.T, label string) WellFormed {
 			w.Epoch = math.MaxInt64
 		default:
 			w.Epoch = rapid.Uint64Range(0, math.MaxInt64).Draw(t, label+"e3")
+		}
+		if !anyEpoch {
+			w.Epoch &= uint64(^uint(0))
 		}
 		w.EpochTxt = strings.Repeat("0", rapid.SampledFrom([]int{0, 0, 0, 1, 2}).Draw(t, label+"ez")) + strconv.FormatUint(w.Epoch, 10)
 	}
@@ -575,8 +592,10 @@ func (w WellFormed) canonical() string {
 	return s
 }
 
-func genWellFormed(t *rapid.T, label string) WellFormed {
-	w := genWellFormedCore(t, label)
+func genWellFormed(t *rapid.T, label string) WellFormed { return genWellFormedX(t, label, false) }
+
+func genWellFormedX(t *rapid.T, label string, anyEpoch bool) WellFormed {
+	w := genWellFormedCoreX(t, label, anyEpoch)
 	ws := []string{"", "", "", " ", "  ", "\t", "\n", " \t", "\r\n"}
 	w.Text = rapid.SampledFrom(ws).Draw(t, label+"lead") + w.canonical() + rapid.SampledFrom(ws).Draw(t, label+"trail")
 	return w
